@@ -151,9 +151,8 @@ VOCAB = {
     # `Default::default()` by the type of the place it is assigned to
     "defaults": {repr(U8P): "u8_new", repr(("coq", "u8parser")): "u8_new", repr(STATE): "Ground"},
     "fns": {
-        # the translation of anstyle_parse::state::state_change (Generated/ParserFn.v; it ignores its cfg argument)
-        "state_change": {"coq": "g_state_change cfg_default", "self": None, "params": [("in", STATE), ("in", U8)],
-                         "ret": ("tuple", (STATE, ACTION)), "total": False, "cfg": False},
+        # anstyle_parse::state::definitions::unpack (transmute): hand model, pinned by token hash (as in gen_fn_parser.py)
+        "unpack": P.VOCAB["fns"]["unpack"],
         "from_utf8_unchecked": f_from_utf8_unchecked,
         "VtUtf8Receiver": f_receiver_new,
         "Vec::with_capacity": f_vec_with_capacity,
@@ -168,12 +167,13 @@ VOCAB = {
         "StrippedBytes": ("(fun it => iter_drain g_stripped_bytes_next (S (length (bi_bytes it))) it)", True, BYTES),
         "StrippedStr": ("(fun it => iter_drain g_stripped_str_next (S (length (si_bytes it))) it)", True, BYTES),
     },
+    "consts": {"STATE_CHANGES": P.VOCAB["consts"]["STATE_CHANGES"]},
     "opaque": {},
 }
 
-HEADER = "(* GENERATED by tools/gen_fn_strip.py (tools/rs2v) from crates/anstream/src/adapter/strip.rs -- do not edit *)"
+HEADER = "(* GENERATED by tools/gen_fn_strip.py (tools/rs2v) from crates/anstream/src/adapter/strip.rs and crates/anstyle-parse/src/state/mod.rs -- do not edit *)"
 REQ = """From Coq Require Import NArith List Bool.
-From AV Require Import Generated.Table Model.Base Model.Utf8parse Model.Parser Generated.ParserFn Model.Strip Model.Imp.
+From AV Require Import Generated.Table Model.Base Model.Utf8parse Model.Parser Model.Strip Model.Imp.
 Import ListNotations.
 Local Open Scope N_scope.
 Local Open Scope bool_scope."""
@@ -218,9 +218,24 @@ def register(generators, gm):
     def gen():
         try:
             src = gm.read("crates/anstream/src/adapter/strip.rs")
+            smod = gm.read("crates/anstyle-parse/src/state/mod.rs")
+            defs = gm.read("crates/anstyle-parse/src/state/definitions.rs")
+            shapes = {}
+            # anstyle_parse::state::{state_change_, state_change}: translated here again (under their own
+            # names) so that C01 / C03 depend on nothing else of Generated/ParserFn.v
+            v0 = dict(VOCAB)
+            v0["structs"] = {}
+            out = [translate(smod, v0, [
+                ("state_change_", None, "gs_state_change_", {}),
+                ("state_change", None, "gs_state_change", {}),
+            ], HEADER, REQ, shapes)]
+            h = token_hash(fn_source(defs, "unpack"))
+            if h != P.PIN_UNPACK:
+                raise TranslateError("definitions::unpack changed (token hash %s, pinned %s): it is modelled by hand (transmute)" % (h, P.PIN_UNPACK))
             v = dict(VOCAB)
             v["opaque"] = OPAQUE
-            return translate(src, v, TARGETS, HEADER, REQ) + "\n"
+            out.append(translate(src, v, TARGETS, "", "", shapes))
+            return "\n".join(out) + "\n"
         except TranslateError as e:
             raise gm.GenError(str(e))
     generators["StripFn"] = gen
